@@ -7,6 +7,18 @@ G  every payload of <= N tokens over a 27-token alphabet x 5 contexts: real expa
    return TLC's string, real parse() must yield the single text leaf at the stated path,
    and no template_fn call may originate inside the payload.  Comment documents: real
    expand()/parse() of the written document == of TLC's stripped document.
+L  comment LINE LAYOUTS (Gen_Nowiki, Mode "comment"; Nowiki.tla StripRef / StripScan): what stands
+   around a comment on its line - blanks / tabs between the line break and the comment, a blank
+   before that line break, an empty line, content after the comment on the same line (text, list
+   marker, table row / cell, heading, call, rule, nowiki), several comments on a line / on
+   consecutive lines, a comment between two characters that form a token when glued - at top
+   level and inside a template argument, link text, list item, table cell.  TLC computes the
+   reference (each comment and ONLY the line break directly before it deleted, position by
+   position) and checks that the code's scanning step gives it; real expand() and parse() of
+   the written text must equal those of the reference text.  The same text as a template BODY is
+   compared with the body reference (comment only; outside the statement's contexts: DRIFT).
+   V: random texts in which expand() has nothing to do but remove comments -> Trace_Nowiki
+   (output = StripRef(input)).
 V  seeded random longer payloads over a wider alphabet are run on the real code and the
    recorded (context, payload, tokenised output) triples validated by TLC (Trace_Nowiki).
 N  NESTED contexts x expansion options (Nowiki.tla, second half): the nowiki sits under up to
@@ -33,7 +45,7 @@ import common
 from common import Outcome, Scratch, pmap, tlc
 
 PID = "C15"
-ATOM = {"SP": " ", "NL": "\n"}
+ATOM = {"SP": " ", "NL": "\n", "TAB": "\t"}
 
 
 def text(atoms):
@@ -118,24 +130,60 @@ def run_nowiki(chunk):
     return res
 
 
+CTOK = re.compile(r"(?s)<!--|-->|<nowiki>|</nowiki>|.")
+
+
+def ctok(s):
+    """a text as the atoms of the flat comment formulation of Nowiki.tla (leftmost-first, as a scan sees it)"""
+    return [{" ": "SP", "\n": "NL", "\t": "TAB"}.get(t, "CK" if CK.match(t) else t) for t in CTOK.findall(s)]
+
+
+def atoms_ck(s):
+    """a real output character by character"""
+    return [{" ": "SP", "\n": "NL", "\t": "TAB"}.get(ch, "CK" if CK.match(ch) else ch) for ch in s]
+
+
 def run_comment(chunk):
     common.use_repo()
     res = []
     with Scratch("c15c-") as d:
         ctx = make_ctx(d)
+
+        def ex(t):
+            ctx.start_page("Pg")
+            return ctx.expand(t)
+
+        def pa(t):
+            ctx.start_page("Pg")
+            return dump(ctx.parse(t))
+
+        def body(t):
+            ctx.add_page("Template:B", 10, body=t)
+            ctx.start_page("Pg")
+            return ctx.expand("{{B}}")
+
         try:
             for idx, c in chunk:
                 w, s = text(c["written"]), text(c["stripped"])
                 ob = {"idx": idx, "written": w, "stripped": s}
                 try:
-                    ctx.start_page("Pg")
-                    ob["ew"] = ctx.expand(w)
-                    ctx.start_page("Pg")
-                    ob["es"] = ctx.expand(s)
-                    ctx.start_page("Pg")
-                    ob["pw"] = dump(ctx.parse(w))
-                    ctx.start_page("Pg")
-                    ob["ps"] = dump(ctx.parse(s))
+                    ob["ew"] = ex(w)
+                    ob["es"] = ex(s)
+                    ob["pw"] = pa(w)
+                    ob["ps"] = pa(s)
+                    if c.get("k") == "lay":
+                        if ctok(w) != c["written"]:
+                            ob["exc"] = "machinery: the written text is not the model's atom sequence"
+                        # which of the model's mistaken rules gives what the real code gave (only looked at on a difference)
+                        if ob["ew"] != ob["es"]:
+                            ob["like_e"] = [(a["rule"], text(a["text"])) for a in c["alts"] if ex(text(a["text"])) == ob["ew"]]
+                        if ob["pw"] != ob["ps"]:
+                            ob["like_p"] = [(a["rule"], text(a["text"])) for a in c["alts"] if pa(text(a["text"])) == ob["pw"]]
+                        if c["emb"] == "top":
+                            # the same text as the body of a template against the body reference
+                            ob["only"] = text(c["only"])
+                            ob["bw"] = body(w)
+                            ob["bo"] = body(ob["only"])
                 except Exception as e:  # noqa: BLE001
                     ob["exc"] = repr(e)
                 res.append(ob)
@@ -143,6 +191,13 @@ def run_comment(chunk):
             ctx.db_conn.close()
     return res
 
+
+# what a comment took with it / left behind, by the rule of Nowiki.tla (StripScan) that explains the real result
+LIKE = {"indent": "the text from which the comment is removed TOGETHER WITH the line break before it and the blanks / tabs that stand between that line break and the comment "
+                  "(the line break is not directly before the comment and has to stay, as has the indentation)",
+        "lines": "the text from which the comment is removed together with MORE than the one line break directly before it",
+        "trail": "the text from which the comment is removed together with the blanks / tabs that follow it",
+        "only": "the text in which the line break directly before the comment is left"}
 
 ENT = re.compile(r"&#?[a-z0-9]+;")
 # the library's private-use range: <nowiki/> marker, bracket markers, stored-construct cookies
@@ -280,6 +335,32 @@ def run_nested(chunk):
     return res
 
 
+def run_expand(chunk):
+    """items: (idx, text) -> expand(text) with default options"""
+    common.use_repo()
+    res = []
+    with Scratch("c15p-") as d:
+        ctx = make_ctx(d)
+        try:
+            for idx, src in chunk:
+                ob = {"idx": idx}
+                try:
+                    ctx.start_page("Pg")
+                    ob["out"] = ctx.expand(src)
+                except Exception as e:  # noqa: BLE001
+                    ob["exc"] = repr(e)
+                res.append(ob)
+        finally:
+            ctx.db_conn.close()
+    return res
+
+
+# tokens of the random comment texts: nothing here is a template / link / nowiki / magic word, so all
+# expand() has to do is to remove the comments (checked on the real code before a verdict is given)
+PLAIN = ["a", "b", "é", " ", " ", " ", "\n", "\n", "\n", "\t", "\t", "*", "#", ":", ";", "|", "|-", "{|", "|}", "=", "==", "----", "''", "!", "-", "<", ">", "--",
+         "<!--", "<!--", "<!--", "-->", "-->", "-->", "<!-- c -->", "\n<!-- c -->", "\n <!--c-->", " <!-- c --> ", "<!--\n-->"]
+
+
 TRACE_CFG = "SPECIFICATION TSpec\nINVARIANT Verdict\nCHECK_DEADLOCK FALSE\n"
 
 
@@ -392,10 +473,14 @@ def nested_V_cases(rng, n, maxdepth, payload):
 def run(tier: str) -> int:
     o = Outcome(PID, tier)
     o.rule = ("every payload of <= N tokens over the 27-token alphabet x 5 embedding contexts is one case; every comment document one case; distinct by (context, payload); "
+              "comment line layouts: every (lead, indentation, comment group, rest of the line) of the bounded sets x embedding (top level, template argument, link text, list item, table cell) and every glue layout "
+              "(token halves x separator) is one case, distinct by (embedding, written text); random comment texts: distinct by text; "
               "nested: every sequence of <= Depth frames (12 kinds; Depth 3, thorough 4) x every setting of the options some frame looks at x 4 payloads (thorough: one of them at depth 4) is one case, "
               "distinct by (frames, options, payload)")
     o.assumptions = ["payloads are built from the wikitext token alphabet (no private-use characters of the placeholder range, as the package documents)",
                      "comment payloads contain neither '-->' nor nowiki tags",
+                     "comment line layouts: removing a comment never splits a nowiki tag or forms a new comment delimiter; random comment texts have no '<!-->' / '<!--->' "
+                     "(is '-->' a closing delimiter there?) and are judged only where expand() is the identity on the reference text; template bodies are outside the statement's contexts (DRIFT)",
                      "nested contexts: #invoke is only met unexpanded (expand_invoke or expand_parserfns off; no Lua offline); 'uc' only directly around the nowiki; "
                      "where bracket runs are ambiguous wikitext (disabled link inside a link, external link closing into a link) only the statement's observables are checked, not the rendering of the frames"]
     thorough = tier == "thorough"
@@ -409,22 +494,43 @@ def run(tier: str) -> int:
         judge_nowiki(o, cases[ob["idx"]], ob)
         o.traces += 1
     o.sample({"input": text(cases[len(cases) // 2]["input"]), "expanded": text(cases[len(cases) // 2]["expanded"])})
-    r = tlc("Gen_Nowiki", "Gen_Nowiki_comment_1.cfg", workers=1, timeout=3000)
+    r = tlc("Gen_Nowiki", "Gen_Nowiki_comment_2.cfg" if thorough else "Gen_Nowiki_comment_1.cfg", workers=1, timeout=3000)
     o.add_tlc("Gen_Nowiki[comment]", r)
     ccases = r.cases
+    nlay = {}
     for ob in pmap(run_comment, list(enumerate(ccases))):
         o.evaluations += 1
         o.traces += 1
+        c = ccases[ob["idx"]]
+        lay = c.get("k") == "lay"
         case = {"written": ob["written"], "with_comments_deleted": ob["stripped"]}
+        if lay:
+            case["embedding"] = c["emb"]
+            nlay[c["emb"]] = nlay.get(c["emb"], 0) + 1
+        ref = " and only the line break directly before it" if lay else ""
+        if "exc" in ob and ob["exc"].startswith("machinery"):
+            raise common.TLCError(f"{ob['exc']}: {ob['written']!r} / {c['written']!r}")
         if "exc" in ob:
             o.violation({**case, "exception": ob["exc"]}, f"exception {ob['exc']}", cls="exception")
         elif leak(ob["ew"]) or leak(ob["es"]):
             o.violation({**case, "expand_written": ob["ew"], "expand_deleted": ob["es"]}, f"expand({ob['written']!r}) = {ob['ew']!r}: an internal placeholder character is left in the output", cls="comment-placeholder")
         elif ob["ew"] != ob["es"]:
-            o.violation({**case, "expand_written": ob["ew"], "expand_deleted": ob["es"]}, f"expand({ob['written']!r}) = {ob['ew']!r} but with the comment deleted it is {ob['es']!r}", cls="comment-expand")
+            like, alt = (ob.get("like_e") or [("", "")])[0]
+            o.violation({**case, "expand_written": ob["ew"], "expand_deleted": ob["es"], "explained_by_rule": like},
+                        f"expand({ob['written']!r}) = {ob['ew']!r} but with each comment{ref} deleted the text is {ob['stripped']!r} and expands to {ob['es']!r}" + (f"; the result is that of {alt!r}, " + LIKE[like] if like else ""),
+                        cls="comment-expand" + ("-" + (like or "other") if lay else ""))
         elif ob["pw"] != ob["ps"]:
-            o.violation({**case, "parse_written": str(ob["pw"])[:300], "parse_deleted": str(ob["ps"])[:300]}, f"parse trees of {ob['written']!r} with and without its comments differ", cls="comment-parse")
-        o.shape(("comment", ob["written"]))
+            like, alt = (ob.get("like_p") or [("", "")])[0]
+            o.violation({**case, "parse_written": str(ob["pw"])[:300], "parse_deleted": str(ob["ps"])[:300], "explained_by_rule": like},
+                        f"parse({ob['written']!r}) gives another tree than parse of the text with each comment{ref} deleted, {ob['stripped']!r}" + (f"; the tree is that of {alt!r}, " + LIKE[like] if like else ""),
+                        cls="comment-parse" + ("-" + (like or "other") if lay else ""))
+        if "bw" in ob and ob["bw"] != ob["bo"]:
+            # template bodies are not among the contexts the statement quantifies over (and lose the comment only)
+            o.note_drift({"template_body": ob["written"], "got": ob["bw"], "body_with_comments_deleted": ob["only"], "model": ob["bo"]})
+        o.shape(("comment", c["emb"], ob["written"]) if lay else ("comment", ob["written"]))
+    o.extra["comment_line_layouts"] = {"cases_by_embedding": nlay,
+                                       "witnesses_of_mistaken_rules(layouts where the rule's text differs from the reference)":
+                                           {ru: sum(1 for c in ccases if any(a["rule"] == ru for a in c.get("alts", []))) for ru in ("indent", "lines", "trail", "only")}}
     nested_G(o, thorough)
     o.exhaustive = True
     o.sample({"comment_document": text(ccases[7]["written"]), "stripped": text(ccases[7]["stripped"])})
@@ -469,7 +575,36 @@ def run(tier: str) -> int:
     for ob in nobs:
         c = ncases[ob["idx"]]
         batch.append({"k": "nest", "fs": c["fs"], "o": c["o"], "c": atoms(c["c"]), "inp": atoms(c["src"]), "out": tokenize(ob.get("out", "EXC"))})
+    # V, comments: random texts of plain characters, blanks, line breaks, tabs and comment delimiters
+    ptexts = []
+    while len(ptexts) < (5000 if thorough else 500):
+        t = "".join(rng.choice(PLAIN) for _ in range(rng.randint(2, 14)))
+        if not re.search(r"<!---?>", t):        # "<!-->": is "-->" a closing delimiter there?  not decided by the statement, left out
+            ptexts.append(t)
+    pobs = pmap(run_expand, list(enumerate(ptexts)))
+    for ob in pobs:
+        batch.append({"k": "cm", "inp": ctok(ptexts[ob["idx"]]), "out": atoms_ck(ob.get("out", "EXC"))})
+        o.shape(("cmV", ptexts[ob["idx"]]))
     bad = tlc_judge(o, "Trace_Nowiki", batch)
+    cmbad = {i: b for i, b in bad.items() if i > len(obs) + len(nobs)}
+    bad = {i: b for i, b in bad.items() if i not in cmbad}
+    if cmbad:
+        # is expand() the identity on the reference text, as the random driver assumes?  only then the statement is contradicted
+        todo = [(i, text(b["expected"])) for i, b in sorted(cmbad.items())]
+        ident = {i: r for (i, _), r in zip(todo, sorted(run_expand(todo), key=lambda r: r["idx"]))}
+        for i, b in sorted(cmbad.items()):
+            ob = pobs[i - len(obs) - len(nobs) - 1]
+            src, exp = ptexts[ob["idx"]], text(b["expected"])
+            if "exc" in ob:
+                o.violation({"input": src, "exception": ob["exc"]}, f"exception {ob['exc']} from {src!r}", cls="V-comment-exception")
+            elif b["why"] == "placeholder":
+                o.violation({"input": src, "got": ob["out"]}, f"expand({src!r}) = {ob['out']!r}: the internal placeholder character {leak(ob['out'])} is left in the output", cls="V-comment-placeholder")
+            elif ident[i].get("out") == exp:
+                o.violation({"input": src, "got": ob["out"], "with_comments_deleted": exp, "explained_by_rule": b["like"]},
+                            f"expand({src!r}) = {ob['out']!r} but with each comment and only the line break directly before it deleted the text is {exp!r} (which expand() leaves as it is)" + ("; the result is " + LIKE[b["like"]] if b["like"] else ""),
+                            cls="V-comment-" + (b["like"] or "other"))
+            else:
+                o.note_drift({"plain_text": src, "got": ob["out"], "model": exp, "note": "expand() is not the identity on the reference text"})
     o.traces += len(batch)
     o.evaluations += len(batch)
     for i, b in sorted(bad.items()):
@@ -514,11 +649,22 @@ def selftest() -> int:
              {**nest, "out": pre + ["CK"] + post},                                                               # 4 placeholder
              {**nest, "out": pre + ["c", "*"] + post},                                                           # 5 payload not quoted
              {**nest, "out": tokenize("{{<nowiki />t|[[a|") + ["c", "&ast;"] + tokenize("]]}}")},               # 6 frame drift only
-             {"k": "nest", "fs": ["T1", "da", "T1"], "o": DEFAULT_O, "c": ["c"], "out": ["(", "x", ")"]}]          # 7 loop error: payload not demanded
+             {"k": "nest", "fs": ["T1", "da", "T1"], "o": DEFAULT_O, "c": ["c"], "out": ["(", "x", ")"]},          # 7 loop error: payload not demanded
+             # recorded outputs of comment texts: what the comment took with it
+             {"k": "cm", "inp": ctok("a\n <!--c-->b"), "out": atoms_ck("a\n b")},                                 # 8 ok
+             {"k": "cm", "inp": ctok("a\n <!--c-->b"), "out": atoms_ck("ab")},                                    # 9 line break + indentation
+             {"k": "cm", "inp": ctok("a\n<!--c--> b<!--d"), "out": atoms_ck("a b<!--d")},                          # 10 ok (unclosed comment stays)
+             {"k": "cm", "inp": ctok("a\n<!--c--> b"), "out": atoms_ck("ab")},                                    # 11 blanks after it
+             {"k": "cm", "inp": ctok("a\n\n<!--c-->b"), "out": atoms_ck("ab")},                                   # 12 two line breaks
+             {"k": "cm", "inp": ctok("a\n<!--c-->b"), "out": atoms_ck("a\nb")},                                   # 13 line break left
+             {"k": "cm", "inp": ctok("a<!--c-->b"), "out": atoms_ck("a b")}]                                      # 14 something else
     o = Outcome(PID, "selftest")
     bad = tlc_judge(o, "Trace_Nowiki[selftest]", batch)
-    got = {i: b["why"] for i, b in bad.items()}
+    got = {i: b["why"] for i, b in bad.items() if i <= 7}
     print("verdicts:", got)
+    gotc = {i: (b["why"], b["like"]) for i, b in bad.items() if i > 7}
+    print("comment verdicts:", gotc)
+    comments_ok = gotc == {9: ("comment", "indent"), 11: ("comment", "trail"), 12: ("comment", "lines"), 13: ("comment", "only"), 14: ("comment", "")}
     try:
         tlc_judge(o, "Trace_Nowiki[selftest]", [{**nest, "out": pre + ["c", "&ast;"] + post, "inp": atoms("{{<nowiki/>t|[[b|<nowiki>c*</nowiki>]]}}")}])
         wrong_input_rejected = False
@@ -527,10 +673,10 @@ def selftest() -> int:
     print("wrong written input rejected:", wrong_input_rejected)
     # the model itself: with a mistaken finalize loop TLC finds a nested context that leaves a placeholder
     demos = {}
-    for rule in ("flagTA", "two"):
+    for rule in ("flagTA", "two", "cindent", "clines", "ctrail"):   # c*: a mistaken rule of what a comment takes with it -> a line layout
         rd = tlc("Gen_Nowiki", f"Demo_Nowiki_{rule}.cfg", workers=1, check=False, timeout=600)
         demos[rule] = "GenInv" in rd.invariant_violated
     print("Demo configurations violated:", demos)
-    if not all(demos.values()):
+    if not all(demos.values()) or not comments_ok:
         return 1
     return 0 if got == {2: "mismatch", 4: "placeholder", 5: "payload", 6: "frame", 7: "frame"} and wrong_input_rejected else 1
